@@ -27,7 +27,7 @@ Definition enc_setmap (sm : setmap) : data :=
   of_list (fun kc => DList [of_list DStr (fst kc); of_nat (snd kc)]) sm.
 
 (* case: (files weights config) ;
-   answer: (M S hoisted cached setmap_of_M) where the setmap counts every file *)
+   answer: (M S hoisted cached prefix-cached setmap_of_M) where the setmap counts every file *)
 Definition run_C08 (d : data) : data :=
   match d with
   | DList [files; wts; cfg] =>
@@ -38,6 +38,7 @@ Definition run_C08 (d : data) : data :=
                  enc_amap (spec_S fs include_depth cfg);
                  enc_amap (find_hoisted fs include_depth cfg);
                  enc_amap (find_cached fs include_depth cfg);
+                 enc_amap (find_prefix fs include_depth cfg);
                  match m with
                  | Ok am => enc_setmap (setmap_M (names_of cfg) (wt_of wts) (fun _ => true) am fs)
                  | Err _ => DList []
